@@ -37,6 +37,7 @@ pub fn install_panic_hook() {
     }));
 }
 
+#[derive(Debug)]
 pub enum Caught {
     /// panic raised by harness code (engine error)
     Harness(String),
@@ -210,18 +211,45 @@ pub struct Exec<K: Kit> {
 
 pub const LONG: Duration = Duration::from_secs(3600);
 
+thread_local! {
+    /// Call boundary of the history being executed / judged (0 = none): samples[..k] go into one
+    /// `solve` call, the rest into the following call(s). Read by the replay writers.
+    pub static SPLIT: std::cell::Cell<usize> = const { std::cell::Cell::new(0) };
+}
+
 /// Runs one history on a fresh rig: tree planners feed all samples through `solve`; PRM builds
 /// the roadmap from the samples and then queries once.
 pub fn run_history<K: Kit>(sc: &Scenario, seq: &[u8], logging: bool) -> Result<(Rig<K>, Exec<K>), Caught> {
+    run_history_split::<K>(sc, seq, logging, 0)
+}
+
+/// As `run_history`, with a call boundary after the first `split` samples (tree planners: the
+/// first call gets exactly those samples as its budget and normally ends in Timeout; PRM: a second
+/// `construct_roadmap` call and a second query follow the first).
+pub fn run_history_split<K: Kit>(sc: &Scenario, seq: &[u8], logging: bool, split: usize) -> Result<(Rig<K>, Exec<K>), Caught> {
+    SPLIT.with(|s| s.set(split));
     let mut rig = guarded(|| Rig::<K>::new(sc, true))?;
     rig.logging(logging);
     let exec = guarded(|| {
         if rig.is_prm() {
             let c = rig.construct(seq);
             let r = rig.drv.solve(LONG);
-            Exec { calls: vec![(r, 0)], construct: Some(c) }
-        } else {
+            let mut calls = vec![(r, 0)];
+            if split > 0 {
+                // repeated construction must change nothing; the second query answers like the first
+                if rig.snapshot().node_count() > 0 {
+                    let _ = rig.drv.construct_roadmap();
+                }
+                calls.push((rig.drv.solve(LONG), 0));
+            }
+            Exec { calls, construct: Some(c) }
+        } else if split == 0 || split >= seq.len() {
             Exec { calls: rig.feed(seq), construct: None }
+        } else {
+            let mut calls = rig.feed(&seq[..split]);
+            // only a history whose first part was consumed entirely has its boundary at `split`
+            calls.extend(rig.feed(&seq[split..]));
+            Exec { calls, construct: None }
         }
     })?;
     Ok((rig, exec))
@@ -231,6 +259,8 @@ pub fn run_history<K: Kit>(sc: &Scenario, seq: &[u8], logging: bool) -> Result<(
 pub fn par_explore<K: Kit>(
     shards: &[Shard],
     logging: bool,
+    splits: bool,
+    all_splits: bool,
     per_history: &(dyn Fn(&Scenario, &[u8], Result<(Rig<K>, Exec<K>), Caught>, &mut Report) + Sync),
 ) -> Report {
     shards
@@ -249,6 +279,28 @@ pub fn par_explore<K: Kit>(
                     rep.distinct.insert(h128(&key));
                 }
                 per_history(&sh.sc, seq, r, &mut rep);
+                if splits {
+                    // the same samples with one call boundary at every position
+                    // quick tier: boundaries after the first and before the last sample; thorough: all
+                    let ks: Vec<usize> = if sh.sc.params.pk == Pk::Prm {
+                        vec![1]
+                    } else if all_splits {
+                        (1..seq.len()).collect()
+                    } else {
+                        let mut v = vec![1, seq.len() - 1];
+                        v.dedup();
+                        v.retain(|k| *k >= 1 && *k < seq.len());
+                        v
+                    };
+                    for k in ks {
+                        let r = run_history_split::<K>(&sh.sc, seq, logging, k);
+                        rep.count("evaluations", 1);
+                        rep.count("split_histories", 1);
+                        rep.count("transitions", seq.len() as u64);
+                        per_history(&sh.sc, seq, r, &mut rep);
+                    }
+                    SPLIT.with(|s| s.set(0));
+                }
             });
             rep
         })
